@@ -588,6 +588,31 @@ func buildIntrinsics() map[string]intrinsic {
 	m["(*encoding/base32.Encoding).WithPadding"] = func(e *Exec, fn *ssa.Function, args []Value) Value {
 		return args[0]
 	}
+	// utf8.RuneCountInString: a count between len/4 (rounded up) and len, equal to len for ASCII text.  These
+	// bounds are all that length limits depend on; the exact count of non-ASCII text is left open.
+	runeCount := func(e *Exec, s *StrV) Value {
+		if s.C != nil {
+			return cbv(uint64(utf8.RuneCountInString(*s.C)), 64)
+		}
+		key := "runecount#" + s.T
+		if v, ok := e.lazyMemo[key]; ok {
+			return v
+		}
+		e.stub("model:utf8.RuneCountInString(bounds: ceil(len/4) <= n <= len, n = len for ASCII)")
+		n := e.fresh("runes", "Int")
+		ln := "(str.len " + s.T + ")"
+		e.assume(fmt.Sprintf("(and (<= 0 %s) (<= %s %s) (<= %s (* 4 %s)))", n, n, ln, ln, n))
+		e.assume(fmt.Sprintf("(=> (str.in_re %s (re.* (re.range \"\\u{0}\" \"\\u{7f}\"))) (= %s %s))", s.T, n, ln))
+		v := &BV{T: "((_ int2bv 64) " + n + ")", W: 64, I: n}
+		e.lazyMemo[key] = v
+		return v
+	}
+	m["unicode/utf8.RuneCountInString"] = func(e *Exec, fn *ssa.Function, args []Value) Value {
+		return runeCount(e, args[0].(*StrV))
+	}
+	m["unicode/utf8.RuneCount"] = func(e *Exec, fn *ssa.Function, args []Value) Value {
+		return runeCount(e, e.bytesToStr(args[0].(*SliceV)))
+	}
 	m["unicode/utf8.ValidString"] = func(e *Exec, fn *ssa.Function, args []Value) Value {
 		s := args[0].(*StrV)
 		if s.C != nil {
